@@ -411,9 +411,19 @@ impl<'t> M<'t> {
             }
             RK::Look(c, true, neg) => {
                 let snap = st.clone();
-                let alts: Vec<&R> = match &c.k {
+                // a scoped flag group directly around the body is transparent (the crate's parser erases
+                // `(?i:..)` / `(?:..)` wrappers, so the alternatives inside are the top-level alternatives)
+                let mut body: &R = c;
+                while let RK::Concat(v) = &body.k {
+                    if v.len() == 1 {
+                        body = &v[0];
+                    } else {
+                        break;
+                    }
+                }
+                let alts: Vec<&R> = match &body.k {
                     RK::Alt(v) => v.iter().collect(),
-                    _ => vec![&**c],
+                    _ => vec![body],
                 };
                 let mut matched = false;
                 'outer: for alt in alts {
